@@ -114,6 +114,29 @@ var discBases = []discBase{
 		}
 		return refrlp.Encode(refrlp.List(epItem(ip4a, 30303, 0), refrlp.Str(tok), refrlp.Uint(exp2100)))
 	}},
+	// correctly signed pongs whose reply token is a proper prefix of the ping's hash (empty, 2 bytes, 31
+	// bytes) or the hash plus a byte: only the full token answers the ping
+	{name: "pong-tok0", ptype: 1, kinds: []string{"valid"}, states: []int{stSolPong}, payload: func(tok []byte) []byte {
+		return refrlp.Encode(refrlp.List(epItem(ip4a, 30303, 0), refrlp.Str(nil), refrlp.Uint(exp2100)))
+	}},
+	{name: "pong-tok2", ptype: 1, kinds: []string{"valid"}, states: []int{stSolPong}, payload: func(tok []byte) []byte {
+		if tok == nil {
+			tok = zeroT
+		}
+		return refrlp.Encode(refrlp.List(epItem(ip4a, 30303, 0), refrlp.Str(tok[:2]), refrlp.Uint(exp2100)))
+	}},
+	{name: "pong-tok31", ptype: 1, kinds: []string{"valid"}, states: []int{stSolPong}, payload: func(tok []byte) []byte {
+		if tok == nil {
+			tok = zeroT
+		}
+		return refrlp.Encode(refrlp.List(epItem(ip4a, 30303, 0), refrlp.Str(tok[:31]), refrlp.Uint(exp2100)))
+	}},
+	{name: "pong-tok33", ptype: 1, kinds: []string{"valid"}, states: []int{stSolPong}, payload: func(tok []byte) []byte {
+		if tok == nil {
+			tok = zeroT
+		}
+		return refrlp.Encode(refrlp.List(epItem(ip4a, 30303, 0), refrlp.Str(append(append([]byte{}, tok...), 0)), refrlp.Uint(exp2100)))
+	}},
 	{name: "findnode", ptype: 2, kinds: allKinds, states: []int{stBonded}, payload: func([]byte) []byte {
 		return refrlp.Encode(refrlp.List(refrlp.Str(thirdID[:]), refrlp.Uint(exp2100)))
 	}},
